@@ -336,7 +336,11 @@ func checkC16(R *Run) {
 					for _, st := range tc.body {
 						key, cval, cname, ok := parseFlagIf(hp, st, recvName)
 						if !ok {
-							if rows, isLoop := parseFlagLoop(hp, st, recvName); isLoop {
+							rows, isLoop := parseFlagLoop(hp, st, recvName)
+							if !isLoop {
+								rows, isLoop = parseFlagMapLoop(hp, st, recvName, nil)
+							}
+							if isLoop {
 								for _, r := range rows {
 									k := r[0].(string)
 									if _, seen := load[k]; seen {
@@ -1164,3 +1168,219 @@ func indexRange(idx ssa.Value) (lo int64, hi ssa.Value, ok bool) {
 }
 
 func init() { register("C16", checkC16) }
+
+// parseFlagMapLoop: the named-flag case written as a loop over the entries of the file's map with a constant
+// name→bit table:
+//
+//	for name, value := range v {
+//		bit, known := TABLE[name]
+//		if !known { continue }
+//		if enabled, isBool := value.(bool); isBool && enabled { bits.Set(bit) }
+//	}
+//
+// (or with the lookup as the header of an enclosing `if bit, known := TABLE[name]; known {…}`). TABLE is a
+// package-level map literal with constant keys and values that is only ever indexed. Returns the table's rows.
+func parseFlagMapLoop(p *packages.Package, st ast.Stmt, recv string, mapVar types.Object) (rows [][3]any, ok bool) {
+	rs, isRange := st.(*ast.RangeStmt)
+	if !isRange || rs.Key == nil || rs.Value == nil || rs.Tok != token.DEFINE {
+		return nil, false
+	}
+	kid, ok1 := rs.Key.(*ast.Ident)
+	vid, ok2 := rs.Value.(*ast.Ident)
+	xid, ok3 := ast.Unparen(rs.X).(*ast.Ident)
+	if !ok1 || !ok2 || !ok3 || (mapVar != nil && p.TypesInfo.Uses[xid] != mapVar) {
+		return nil, false
+	}
+	keyObj, valObj := p.TypesInfo.Defs[kid], p.TypesInfo.Defs[vid]
+	// the lookup `bit, known := TABLE[name]`
+	lookup := func(s ast.Stmt) (tbl *types.Var, bit, known types.Object, ok bool) {
+		as, isAs := s.(*ast.AssignStmt)
+		if !isAs || as.Tok != token.DEFINE || len(as.Lhs) != 2 || len(as.Rhs) != 1 {
+			return
+		}
+		ix, isIx := as.Rhs[0].(*ast.IndexExpr)
+		if !isIx {
+			return
+		}
+		tid, isT := ast.Unparen(ix.X).(*ast.Ident)
+		iid, isI := ast.Unparen(ix.Index).(*ast.Ident)
+		if !isT || !isI || p.TypesInfo.Uses[iid] != keyObj {
+			return
+		}
+		tv, _ := p.TypesInfo.Uses[tid].(*types.Var)
+		if tv == nil || tv.Parent() != p.Types.Scope() {
+			return
+		}
+		b, isB := as.Lhs[0].(*ast.Ident)
+		k, isK := as.Lhs[1].(*ast.Ident)
+		if !isB || !isK {
+			return
+		}
+		return tv, p.TypesInfo.Defs[b], p.TypesInfo.Defs[k], true
+	}
+	// the guarded set `if enabled, isBool := value.(bool); isBool && enabled { recv.Set(bit) }`
+	setIf := func(s ast.Stmt, bit types.Object) bool {
+		is, isIf := s.(*ast.IfStmt)
+		if !isIf || is.Else != nil || is.Init == nil || len(is.Body.List) != 1 {
+			return false
+		}
+		as, isAs := is.Init.(*ast.AssignStmt)
+		if !isAs || len(as.Lhs) != 2 || len(as.Rhs) != 1 {
+			return false
+		}
+		ta, isTA := as.Rhs[0].(*ast.TypeAssertExpr)
+		if !isTA {
+			return false
+		}
+		if tid, isID := ta.Type.(*ast.Ident); !isID || tid.Name != "bool" {
+			return false
+		}
+		if x, isX := ast.Unparen(ta.X).(*ast.Ident); !isX || p.TypesInfo.Uses[x] != valObj {
+			return false
+		}
+		f, okf := as.Lhs[0].(*ast.Ident)
+		o, oko := as.Lhs[1].(*ast.Ident)
+		be, isBE := is.Cond.(*ast.BinaryExpr)
+		if !okf || !oko || !isBE || be.Op != token.LAND {
+			return false
+		}
+		a, aok := be.X.(*ast.Ident)
+		b, bok := be.Y.(*ast.Ident)
+		if !aok || !bok || !((a.Name == o.Name && b.Name == f.Name) || (a.Name == f.Name && b.Name == o.Name)) {
+			return false
+		}
+		es, isES := is.Body.List[0].(*ast.ExprStmt)
+		if !isES {
+			return false
+		}
+		call, isCall := es.X.(*ast.CallExpr)
+		if !isCall || len(call.Args) != 1 {
+			return false
+		}
+		sel, isSel := call.Fun.(*ast.SelectorExpr)
+		if !isSel || sel.Sel.Name != "Set" {
+			return false
+		}
+		if id, isID := sel.X.(*ast.Ident); !isID || (id.Name != recv && !strings.HasPrefix(id.Name, "__p")) {
+			return false
+		}
+		arg, isArg := ast.Unparen(call.Args[0]).(*ast.Ident)
+		return isArg && p.TypesInfo.Uses[arg] == bit
+	}
+	var tv *types.Var
+	body := rs.Body.List
+	switch {
+	case len(body) == 3 || len(body) == 2:
+		t, bit, known, okL := lookup(body[0])
+		if !okL {
+			return nil, false
+		}
+		rest := body[1:]
+		if len(rest) == 2 {
+			// if !known { continue }
+			g, isIf := rest[0].(*ast.IfStmt)
+			if !isIf || g.Init != nil || g.Else != nil || len(g.Body.List) != 1 {
+				return nil, false
+			}
+			u, isU := g.Cond.(*ast.UnaryExpr)
+			if !isU || u.Op != token.NOT {
+				return nil, false
+			}
+			if id, isID := u.X.(*ast.Ident); !isID || p.TypesInfo.Uses[id] != known {
+				return nil, false
+			}
+			if br, isBr := g.Body.List[0].(*ast.BranchStmt); !isBr || br.Tok != token.CONTINUE || br.Label != nil {
+				return nil, false
+			}
+			if !setIf(rest[1], bit) {
+				return nil, false
+			}
+		} else {
+			// if known { if … { Set } }
+			g, isIf := rest[0].(*ast.IfStmt)
+			if !isIf || g.Init != nil || g.Else != nil || len(g.Body.List) != 1 {
+				return nil, false
+			}
+			if id, isID := g.Cond.(*ast.Ident); !isID || p.TypesInfo.Uses[id] != known {
+				return nil, false
+			}
+			if !setIf(g.Body.List[0], bit) {
+				return nil, false
+			}
+		}
+		tv = t
+	case len(body) == 1:
+		g, isIf := body[0].(*ast.IfStmt)
+		if !isIf || g.Init == nil || g.Else != nil || len(g.Body.List) != 1 {
+			return nil, false
+		}
+		t, bit, known, okL := lookup(g.Init)
+		if !okL {
+			return nil, false
+		}
+		if id, isID := g.Cond.(*ast.Ident); !isID || p.TypesInfo.Uses[id] != known {
+			return nil, false
+		}
+		if !setIf(g.Body.List[0], bit) {
+			return nil, false
+		}
+		tv = t
+	default:
+		return nil, false
+	}
+	// the table: a map literal with constant keys and values, only ever indexed
+	var lit *ast.CompositeLit
+	okUses := true
+	for _, f := range p.Syntax {
+		indexed := map[*ast.Ident]bool{}
+		ast.Inspect(f, func(n ast.Node) bool {
+			switch x := n.(type) {
+			case *ast.ValueSpec:
+				for i, nm := range x.Names {
+					if p.TypesInfo.Defs[nm] == types.Object(tv) && i < len(x.Values) {
+						lit, _ = x.Values[i].(*ast.CompositeLit)
+					}
+				}
+			case *ast.IndexExpr:
+				if id, ok := ast.Unparen(x.X).(*ast.Ident); ok {
+					indexed[id] = true
+				}
+			case *ast.AssignStmt:
+				// an assignment through an index expression writes the table
+				for _, l := range x.Lhs {
+					if ix, ok := l.(*ast.IndexExpr); ok {
+						if id, ok := ast.Unparen(ix.X).(*ast.Ident); ok && p.TypesInfo.Uses[id] == types.Object(tv) {
+							okUses = false
+						}
+					}
+				}
+			}
+			return true
+		})
+		ast.Inspect(f, func(n ast.Node) bool {
+			if id, ok := n.(*ast.Ident); ok && p.TypesInfo.Uses[id] == types.Object(tv) && !indexed[id] {
+				okUses = false
+			}
+			return true
+		})
+	}
+	if lit == nil || !okUses {
+		return nil, false
+	}
+	for _, el := range lit.Elts {
+		kv, isKV := el.(*ast.KeyValueExpr)
+		if !isKV {
+			return nil, false
+		}
+		ktv, has := p.TypesInfo.Types[kv.Key]
+		if !has || ktv.Value == nil || ktv.Value.Kind() != constant.String {
+			return nil, false
+		}
+		n, cname, cok := constIntOf(p, kv.Value)
+		if !cok {
+			return nil, false
+		}
+		rows = append(rows, [3]any{constant.StringVal(ktv.Value), n, cname})
+	}
+	return rows, len(rows) > 0
+}
